@@ -83,8 +83,8 @@ ADDED = {
  "C14": " Also target histories (see C13). Later searches run with IPP_PORT etc. set; live: first octets on the wire (TLS ClientHello vs HTTP request line) per scheme, client and feature set (native-tls, rustls-only); repeated in a binary built without debug assertions.",
  "C15": " Also the log text rendered per parse with a trace-level logger installed, as a deterministic work measure. Client path: allocation on the calling thread while send() parses a small response followed by a 48/160 MiB document; raw-octet value families; allocation bounded under trace logging. Two-phase families (n large things, then n small things after them), fixed and generated.",
  "C16": " Also every value-tag byte repeated in a run after values of known syntaxes. All 65536 codes also in a header that reaches both parsers in pieces; repeated in a binary built without debug assertions. Every status code decoded again under eight header (version, request-id) contexts.",
- "C17": " Also a response built with the opposite state/reasons and then updated with add(). Also the response parsed by both parsers from pieces of 1-7 octets; repeated under a trace-level logger and in a binary built without debug assertions.",
- "C18": " Also --option arguments without '=' among the options, and a printer that resets the connection in the middle of the upload. One case in six hands the document over through a named pipe or --file=/dev/stdin.",
+ "C17": " Also a response built with the opposite state/reasons and then updated with add(). Reasons sets of mixed syntaxes (members that are not keywords, often first). Also the response parsed by both parsers from pieces of 1-7 octets; repeated under a trace-level logger and in a binary built without debug assertions.",
+ "C18": " Also --option arguments without '=' among the options, and a printer that resets the connection in the middle of the upload. One case in six hands the document over through a named pipe or --file=/dev/stdin. HTTP errors incl. 503, in half of the cases given once only (a repeated request would succeed).",
  "C19": " Also iterator programs: generated sequences of next/nth/skip/take/step_by compared step by step with a slice iterator. Histories contain structural edits through groups_mut(); repeated under a trace-level logger and in a binary built without debug assertions.",
  "C20": " Every document is also read through from_value, to_value+from_value, from_slice and from_reader. Serialise - edit - serialise, and a clone extended after the first serialisation; searches repeated with a trace-level logger installed.",
  "C04": " Every generated search is repeated with a trace-level logger installed.",
